@@ -185,3 +185,137 @@ Section Purge.
     - intros f Nf. apply merge_ann_only_other_top; [exact (ann_patch_ann_only _ _ A')|exact Nf].
   Qed.
 End Purge.
+
+(* C16, "can be purged completely", status progress storage (fresh patch): whatever is on the object, after the purge the
+   record is not readable from the object as patched by an RFC 7386 server.  Guard: where the storage's stanza exists on the
+   object it is a mapping (the real fetch raises a TypeError on anything else, purge or no purge). *)
+Section PurgeStatus.
+  Variable dg : chars -> list N.
+
+  Lemma resolve_app' j p r :
+    resolve j (p ++ r) = match resolve j p with Some x => resolve x r | None => None end.
+  Proof.
+    revert j. induction p as [|k p IH]; intro j; cbn [app resolve]; [reflexivity|].
+    destruct j; try reflexivity. destruct (lookup k kvs); [apply IH|reflexivity].
+  Qed.
+
+  Lemma ensure_null_is_obj field : forall key p, ensure (JObj []) (field ++ [key]) JNull = Ok p -> is_obj p = true /\ p <> JNull.
+  Proof.
+    intros key p H. destruct field as [|a rest].
+    - cbn in H. injection H as <-. split; [reflexivity|discriminate].
+    - cbn [app] in H. rewrite (ensure_cons_ne _ _ _ _ (app_one_ne rest key)) in H.
+      destruct (ensure (match lookup a [] with Some s => s | None => JObj [] end) (rest ++ [key]) JNull) as [sub| | |]; try discriminate.
+      cbn in H. injection H as <-. split; [reflexivity|discriminate].
+  Qed.
+
+  (* the tombstone patch for field.key, merged into any body: the stanza is there, a mapping, without the key *)
+  Lemma merge_tombstone field : forall body key p,
+    ensure (JObj []) (field ++ [key]) JNull = Ok p ->
+    exists kvs, resolve (merge body p) field = Some (JObj kvs) /\ lookup key kvs = None.
+  Proof.
+    induction field as [|a rest IH]; intros body key p H.
+    - cbn in H. injection H as <-. rewrite merge_obj. cbn [merge_fields resolve].
+      eexists; split; [reflexivity|apply lookup_del_same].
+    - cbn [app] in H. rewrite (ensure_cons_ne _ _ _ _ (app_one_ne rest key)) in H.
+      cbn [lookup] in H.
+      destruct (ensure (JObj []) (rest ++ [key]) JNull) as [sub| | |] eqn:E; try discriminate.
+      cbn in H. injection H as <-.
+      destruct (ensure_null_is_obj rest key sub E) as [Ob NN].
+      rewrite merge_obj. cbn [merge_fields resolve].
+      destruct sub; try discriminate. cbn [merge_fields]. rewrite lookup_set_same.
+      apply (IH _ key _ E).
+  Qed.
+
+  Theorem status_purge_complete field tf nw key body patch :
+    (forall v, resolve body field = Some v -> is_obj v = true) ->
+    ppurge dg (PStatus field tf nw) key body (JObj []) = Ok patch ->
+    pfetch dg (PStatus field tf nw) key (merge body patch) = Ok None.
+  Proof.
+    intros G H. cbn [ppurge pfetch] in *. unfold purge_path in H.
+    destruct (resolve body (field ++ [key])) as [bv|] eqn:RB.
+    - destruct (merge_tombstone field body key patch H) as (kvs & R & L). rewrite R, L. reflexivity.
+    - rewrite (resolve_empty_obj _ (app_one_ne field key)) in H. injection H as <-.
+      rewrite merge_obj. cbn [merge_fields].
+      rewrite resolve_app' in RB.
+      destruct body as [| | | | |bk|]; cbn [obj_of].
+      all: try (destruct field as [|a rest]; cbn [resolve lookup]; reflexivity).
+      destruct (resolve (JObj bk) field) as [v|] eqn:RF; [|reflexivity].
+      pose proof (G v eq_refl) as O. destruct v; try discriminate.
+      cbn [resolve] in RB. destruct (lookup key kvs); [discriminate|reflexivity].
+  Qed.
+End PurgeStatus.
+
+(* C16, "read back identically", status progress storage (fresh patch): what is read back from the object as patched by an
+   RFC 7386 server is exactly the server's merge of the stored record into the record the object had (none: JNull) - for
+   every stanza path, id, record and body.  The record is read back IDENTICALLY iff that merge is the identity on it, which
+   is why the framework always stores total records there (RFC 7386 merges mappings field by field and drops nulls). *)
+Section StoreStatus.
+  Variable dg : chars -> list N.
+
+  Definition sub_or_null (o : option json) : json := match o with Some x => x | None => JNull end.
+
+  Lemma ensure_obj_is_obj path : forall v p, path <> [] -> is_obj v = true -> ensure (JObj []) path v = Ok p -> exists o, p = JObj o.
+  Proof.
+    intros v p NE Ov H. destruct path as [|a rest]; [congruence|]. destruct rest as [|b rest].
+    - cbn in H. injection H as <-. eexists; reflexivity.
+    - rewrite ensure_cons in H. cbn [lookup] in H.
+      destruct (ensure (JObj []) (b :: rest) v) as [sub| | |]; try discriminate. cbn in H. injection H as <-. eexists; reflexivity.
+  Qed.
+
+  Lemma merge_chain path : forall body rec p, path <> [] ->
+    ensure (JObj []) path (JObj rec) = Ok p ->
+    resolve (merge body p) path = Some (merge (sub_or_null (resolve body path)) (JObj rec)).
+  Proof.
+    induction path as [|a rest IH]; intros body rec p NE H; [congruence|].
+    destruct rest as [|b rest].
+    - cbn in H. injection H as <-. rewrite merge_obj. cbn [merge_fields resolve]. rewrite lookup_set_same.
+      destruct body as [| | | | |bk|]; cbn [obj_of lookup resolve sub_or_null]; try reflexivity.
+      destruct (lookup a bk); reflexivity.
+    - rewrite ensure_cons in H. cbn [lookup] in H.
+      destruct (ensure (JObj []) (b :: rest) (JObj rec)) as [sub| | |] eqn:E; try discriminate.
+      cbn in H. injection H as <-.
+      destruct (ensure_obj_is_obj (b :: rest) (JObj rec) sub ltac:(discriminate) eq_refl E) as (o & ->).
+      rewrite merge_obj. cbn [merge_fields]. rewrite resolve_cons_obj_of. cbn [obj_of]. rewrite lookup_set_same.
+      rewrite (IH _ rec _ ltac:(discriminate) E). f_equal. f_equal.
+      rewrite (resolve_cons_obj_of body a (b :: rest)).
+      destruct body as [| | | | |bk|]; cbn [obj_of lookup resolve sub_or_null]; try reflexivity.
+      destruct (lookup a bk); reflexivity.
+  Qed.
+
+  Theorem status_store_reads_merge field tf key record body patch :
+    pstore dg (PStatus field tf false) key record body (JObj []) = Ok patch ->
+    pfetch dg (PStatus field tf false) key (merge body patch)
+    = Ok (Some (merge (sub_or_null (resolve body (field ++ [key]))) (JObj record))).
+  Proof.
+    intro H. cbn [pstore pfetch] in *.
+    pose proof (merge_chain (field ++ [key]) body record patch (app_one_ne field key) H) as R.
+    rewrite resolve_app' in R.
+    destruct (resolve (merge body patch) field) as [x|]; [|discriminate].
+    destruct x as [| | | | |kvs|]; try discriminate. cbn [resolve] in R.
+    destruct (lookup key kvs) as [m|]; [|discriminate]. injection R as ->.
+    rewrite merge_obj. reflexivity.
+  Qed.
+
+  (* first store of a record without nulls and without nested mappings (what HandlerState.for_storage() yields, nulls
+     purged): read back identically *)
+  Lemma merge_fields_flat rec : forall t,
+    (forall k v, In (k, v) rec -> is_obj v = false /\ v <> JNull) ->
+    merge_fields rec t = fold_left (fun t kv => set (fst kv) (snd kv) t) rec t.
+  Proof.
+    induction rec as [|[k v] rec IH]; intros t F; [reflexivity|].
+    destruct (F k v (or_introl eq_refl)) as [NO NN].
+    cbn [fold_left fst snd]. rewrite <- IH by (intros k' v' I; apply (F k' v'); right; exact I).
+    destruct v; try congruence; try discriminate; cbn [merge_fields]; rewrite merge_non_obj by reflexivity; reflexivity.
+  Qed.
+
+  Theorem status_first_store_roundtrip field tf key record body patch :
+    resolve body (field ++ [key]) = None ->
+    (forall k v, In (k, v) record -> is_obj v = false /\ v <> JNull) ->
+    pstore dg (PStatus field tf false) key record body (JObj []) = Ok patch ->
+    pfetch dg (PStatus field tf false) key (merge body patch)
+    = Ok (Some (JObj (fold_left (fun t kv => set (fst kv) (snd kv) t) record []))).
+  Proof.
+    intros N F H. rewrite (status_store_reads_merge field tf key record body patch H), N.
+    cbn [sub_or_null]. rewrite merge_obj. cbn [obj_of]. rewrite (merge_fields_flat record [] F). reflexivity.
+  Qed.
+End StoreStatus.
